@@ -397,3 +397,165 @@ def term_kwargs_safe(t):
 def c18_f(ctx):
     from .base import zero_is_valid_obligation
     zero_is_valid_obligation(ctx, ['batch_index', 'index_in_batch'])
+
+
+def _has_guard(ctx, fn, node, pats, pol):
+    for (t, p, _) in ctx.guards(fn, node):
+        if p == pol and match_any(t, pats) is not None:
+            return True
+    return False
+
+
+@obligation('C18-g', 'T11 T8', 'run_vectorized: inputs that are not arrays become constants, the '
+            'batch length comes from the first array input, and the rows are assembled into the '
+            'returned array according to dtype', floor=8,
+            necessary='a flipped detection test treats array inputs as constants (one row instead '
+                      'of batch_size rows); a result that is not converted or not returned is '
+                      'not the array of per-row outputs')
+def c18_g(ctx):
+    rv = ctx.fn(T + ':run_vectorized')
+    ex = ctx.ex(rv)
+    cfg = cfg_of(rv)
+    op_p = ('param', rv.params[0])
+    calls = [c for c in ctx.calls(rv) if ex.term(c.func) == op_p]
+    if len(calls) != 1 or not isinstance(enclosing_loop(calls[0]), ast.For):
+        ctx.undecided('the per-row call of the operation was not found')
+    rows = enclosing_loop(calls[0])
+    var = rv.node.args.vararg.arg if rv.node.args.vararg else None
+    det = [n for n in own_nodes(rv.node) if isinstance(n, ast.For) and var and
+           match(ex.raw(n.iter), pattern('enumerate({})'.format(var))) is not None and
+           enclosing_loop(n) is None and isinstance(n.target, ast.Tuple) and
+           len(n.target.elts) == 2]
+    if len(det) != 1:
+        ctx.undecided('the detection loop over the inputs was not found')
+    det = det[0]
+    ctx.check(cfg.must_precede([cfg.by_stmt[id(det)]], cfg.by_stmt[id(rows)]), rv,
+              'detection before the rows', 'constants and batch length are settled first',
+              'the rows are run before the constants and the batch length are determined',
+              fn=rv, node=det)
+    pos_t = ex.term(det.target.elts[0], cfg.by_stmt[id(det.body[0])]) \
+        if not isinstance(det.body[0], (ast.If, ast.For, ast.While, ast.Try)) else None
+    ipos, ival = det.target.elts[0].id, det.target.elts[1].id
+    IN = ('_i in _c',)
+    ISARR = ('is_array(_x)', 'elfi.utils.is_array(_x)', 'isinstance(_x, np.ndarray)',
+             'isinstance(_x, numpy.ndarray)')
+    # (a) a position joins the constants iff it is not listed and is not an array
+    apps = [c for c in ast.walk(det) if isinstance(c, ast.Call) and callee_name(c) == 'append' and
+            c.args and ex.raw1(c.args[0]) == ('name', ipos)]
+    ok = len(apps) == 1 and _has_guard(ctx, rv, apps[0], IN, False) and \
+        _has_guard(ctx, rv, apps[0], ISARR, False)
+    ctx.check(ok, rv, 'non-array inputs become constants',
+              'constants.append(i) when i is not listed and the input is not an array',
+              'the automatic detection of constant inputs is not `not listed and not an array`',
+              fn=rv, node=apps[0] if apps else det)
+    # (b) the batch length is the length of an array input, taken only while undetermined
+    bname = None
+    it = ex.raw(rows.iter)
+    m = match(it, pattern('range(_b)'))
+    if m is not None and m['b'][0] == 'name':
+        bname = m['b'][1]
+    sets = [n for n in ast.walk(det) if isinstance(n, ast.Assign) and bname and
+            isinstance(n.targets[0], ast.Name) and n.targets[0].id == bname]
+    ok = len(sets) == 1
+    if ok:
+        v = ex.term(sets[0].value)
+        mv = match(v, pattern('len(_x)'))
+        okv = mv is not None and mv['x'][0] == 'item' and mv['x'][2] == 1 and \
+            mv['x'][1][0] == 'elem'
+        ok = okv and _has_guard(ctx, rv, sets[0], ISARR, True) and \
+            _has_guard(ctx, rv, sets[0], ('_b is None',), True) and \
+            _has_guard(ctx, rv, sets[0], IN, False)
+    ctx.check(ok, rv, 'batch length from the first array input',
+              'batch_size = len(input) for an unlisted array input while batch_size is None',
+              'the batch length is not taken from the array inputs (unlisted, is an array, '
+              'length still undetermined)', fn=rv, node=sets[0] if sets else det)
+    # (c) a listed constant is skipped altogether: the mismatch test does not apply to it
+    rs = [s for s in ast.walk(det) if isinstance(s, ast.Raise)]
+    ok = bool(rs) and all(_has_guard(ctx, rv, s, IN, False) and
+                          _has_guard(ctx, rv, s, ISARR, True) for s in rs)
+    ctx.check(ok, rv, 'length test only for unlisted arrays',
+              'raise only for an unlisted array input of another length',
+              'the length mismatch test also applies to constants or non-arrays', fn=rv,
+              node=rs[0] if rs else det)
+    # (d) result container and per-row store by dtype
+    outv = getattr(calls[0], '_parent', None)
+    oname = outv.targets[0].id if isinstance(outv, ast.Assign) and \
+        isinstance(outv.targets[0], ast.Name) else None
+    slot = [n for n in ast.walk(rows) if isinstance(n, ast.Assign) and
+            isinstance(n.targets[0], ast.Subscript) and oname and
+            isinstance(n.targets[0].value, ast.Name) and ex.raw(n.value) == ('name', oname)]
+    app = [c for c in ast.walk(rows) if isinstance(c, ast.Call) and callee_name(c) == 'append'
+           and c.args and oname and ex.raw(c.args[0]) == ('name', oname) and
+           isinstance(c.func.value, ast.Name)]
+    if len(slot) != 1 or len(app) != 1 or slot[0].targets[0].value.id != app[0].func.value.id:
+        ctx.undecided('the per-row result stores were not found')
+    rname = app[0].func.value.id
+    DT = ('dtype is False',)
+    ok = _has_guard(ctx, rv, slot[0], DT, True) and _has_guard(ctx, rv, app[0], DT, False)
+    ctx.check(ok, rv, 'row result stored by dtype',
+              'runs[i] = output when dtype is False, runs.append(output) otherwise',
+              'the per-row store does not follow `dtype is False`', fn=rv, node=slot[0])
+    inits = [n for n in own_nodes(rv.node) if isinstance(n, ast.Assign) and
+             isinstance(n.targets[0], ast.Name) and n.targets[0].id == rname and
+             enclosing_loop(n) is None and
+             cfg.exists_path(ctx.node(rv, n), cfg.by_stmt[id(rows)])]
+    obj = [n for n in inits if match(ex.raw(n.value), pattern('np.empty(_b, dtype=object)'))
+           is not None and bname and ex.raw(n.value.args[0]) == ('name', bname)]
+    lst = [n for n in inits if ex.raw(n.value) == ('list', ())]
+    ok = len(obj) == 1 and len(lst) == 1 and len(inits) == 2 and \
+        _has_guard(ctx, rv, obj[0], DT, True) and _has_guard(ctx, rv, lst[0], DT, False) and \
+        cfg.must_precede([ctx.node(rv, x) for x in inits], cfg.by_stmt[id(rows)])
+    ctx.check(ok, rv, 'result container by dtype',
+              'np.empty(batch_size, dtype=object) when dtype is False, a list otherwise',
+              'the result container does not follow `dtype is False` (object array of '
+              'batch_size slots / list)', fn=rv, node=(obj or lst or [rows])[0])
+    # (e) the list is converted with the requested dtype, after the rows, exactly when it is a list
+    conv = [n for n in own_nodes(rv.node) if isinstance(n, ast.Assign) and
+            isinstance(n.targets[0], ast.Name) and n.targets[0].id == rname and
+            n not in inits and enclosing_loop(n) is None]
+    ok = len(conv) == 1 and match(ex.raw(conv[0].value), pattern(
+        'np.array({}, dtype=dtype)'.format(rname))) is not None and \
+        _has_guard(ctx, rv, conv[0], DT, False) and \
+        cfg.must_precede([cfg.by_stmt[id(rows)]], ctx.node(rv, conv[0]))
+    if ok:
+        # nothing but the dtype test decides whether the conversion happens
+        others = [t for (t, p, _) in ctx.guards(rv, conv[0])
+                  if match_any(t, DT + ('dtype is not False',)) is None]
+        ok = not others
+    ctx.check(ok, rv, 'list converted with the requested dtype',
+              'runs = np.array(runs, dtype=dtype) unless dtype is False',
+              'the list of row outputs is not converted to an array of the requested dtype '
+              'exactly when dtype is not False', fn=rv, node=conv[0] if conv else rows)
+    # (f) every exit returns that array; on the list branch the conversion is passed
+    rr = returns(rv)
+    falls = [p for (p, lab) in cfg.ret.pred if not (p.kind == 'stmt' and
+                                                     isinstance(p.ast, ast.Return))]
+    ok = bool(rr) and not falls and all(
+        ex.raw1(r.value) == ('name', rname) or ex.raw(r.value) == ('name', rname) for r in rr) \
+        and all(cfg.must_precede([cfg.by_stmt[id(rows)]], ctx.node(rv, r)) for r in rr)
+    if ok and conv:
+        # a path entry -> return that takes the list branch and avoids the conversion?
+        cnode = ctx.node(rv, conv[0])
+        lnode = ctx.node(rv, lst[0]) if lst else None
+        if lnode is not None:
+            for r in rr:
+                if cfg.exists_path_assuming(lnode, ctx.node(rv, r), avoiding=[cnode],
+                                            assumed=_dtype_tests(ctx, rv, ex, False)):
+                    ok = False
+    ctx.check(ok, rv, 'the assembled array is returned', 'return runs on every exit',
+              'run_vectorized does not return the assembled rows on every exit (or returns the '
+              'unconverted list)', fn=rv, node=rr[0] if rr else rv.node)
+
+
+def _dtype_tests(ctx, rv, ex, value):
+    """[(test node, polarity)] fixing every `dtype is False` test to `value`."""
+    out = []
+    for t in cfg_of(rv).nodes:
+        if t.kind != 'test':
+            continue
+        term = ex.term(t.ast, t)
+        if match(term, pattern('dtype is False')) is not None:
+            out.append((t, value))
+        elif match(term, pattern('dtype is not False')) is not None:
+            out.append((t, not value))
+    return out
